@@ -19,6 +19,8 @@ Theorem C12_unrepaired_flags_refuted : exists w a b err t, a * a < b /\ refract_
 Proof. exact unrepaired_tir_plausible. Qed.
 
 (* ---- the repaired refract *)
+(* (by construction of the fuel-indexed model; that the CODE's loop is stopped by its own guard `num < max_iterations`,
+   whatever the fuel, is traced_loop_stops_by_its_guard in coq/tie/C11_TieB.v + the structural obligations) *)
 Theorem C12_refract_terminates : forall cap w a b err, (newton_steps cap w a b err (rf_t0 a b) <= cap)%nat.
 Proof. intros. apply newton_steps_le. Qed.
 Theorem C12_tir_flagged : forall cap w a b err, a * a < b -> refract_run cap w a b err = None.
@@ -59,19 +61,38 @@ Proof. exact secant_bounded. Qed.
 Theorem C12_secant_exit_on_surface : forall f tol limit d, fst (intersect_parametric f tol limit) = Hit d ->
   0 <= d /\ exists x, 0 <= x /\ Rabs (f x) <= tol.
 Proof. exact secant_exit_on_surface. Qed.
+(* ... and the returned distance is exactly the secant step taken from that tested point *)
+Theorem C12_secant_exit_is_step_from_tested_point : forall f tol limit d, fst (intersect_parametric f tol limit) = Hit d ->
+  exists x x' e, 0 <= x /\ Rabs (f x) <= tol /\ d = secant_next x' x e (f x).
+Proof. exact secant_exit_is_step. Qed.
 Theorem C12_secant_miss_flagged : forall f tol limit, (forall x, 0 <= x -> tol < Rabs (f x)) ->
   fst (intersect_parametric f tol limit) = Flagged.
 Proof. exact secant_miss_flagged. Qed.
 Theorem C12_zero_direction_flagged : forall c tol limit, tol < Rabs c -> (1 <= limit)%nat ->
   fst (intersect_parametric (fun _ => c) tol limit) = Flagged /\ (snd (intersect_parametric (fun _ => c) tol limit) <= 2)%nat.
 Proof. exact secant_constant_flagged. Qed.
+(* batches of rays (one surface function per ray): bounded, and if distances come back EVERY row is on its surface;
+   a batch containing a ray that misses is flagged as a whole *)
+Theorem C12_secant_batch_bounded : forall fs tol limit,
+  fst (intersect_parametric_batch fs tol limit) <> BOutOfFuel /\ (snd (intersect_parametric_batch fs tol limit) <= S limit)%nat.
+Proof. exact secant_batch_bounded. Qed.
+Theorem C12_secant_batch_rows_on_surface : forall fs tol limit ds, fst (intersect_parametric_batch fs tol limit) = BHit ds ->
+  Forall2 (fun f d => 0 <= d /\ exists x, 0 <= x /\ Rabs (f x) <= tol) fs ds.
+Proof. exact secant_batch_exit_on_surface. Qed.
+Theorem C12_secant_batch_miss_flagged : forall fs tol limit f, In f fs -> (forall x, 0 <= x -> tol < Rabs (f x)) ->
+  fst (intersect_parametric_batch fs tol limit) = BFlagged.
+Proof. exact secant_batch_miss_flagged. Qed.
+(* the unrepaired loop condition |max(error)| released a row with a large negative error *)
+Theorem C12_batch_guard_unrepaired_refuted : exists tol e0 e1, guard2_unrepaired tol e0 e1 = false /\ tol < Rabs e0.
+Proof. exact guard2_unrepaired_refuted. Qed.
 (* the unrepaired guard skipped the body for target_error >= 100 and raised from the epilogue *)
 Theorem C12_parametric_no_exception_refuted : exists tol, unrepaired_raises tol = true.
 Proof. exact unrepaired_parametric_raises. Qed.
 Theorem C12_parametric_no_exception_partial : forall tol, tol < 100 -> unrepaired_raises tol = false.
 Proof. exact unrepaired_parametric_partial. Qed.
 
-(* ---- PyTorch intersect_w_sphere: a fixed number of optimiser steps (any optimiser), and a sound flag *)
+(* ---- PyTorch intersect_w_sphere: a fixed number of optimiser steps (any optimiser; by construction of run_steps: that the
+   code's loop is `for` over range(number_of_steps) without early exit is a structural obligation), and a sound flag *)
 Theorem C12_sphere_fixed_steps : forall (St : Type) (opt : St -> St) n s, snd (run_steps St opt n s) = n.
 Proof. exact sphere_fixed_steps. Qed.
 Theorem C12_sphere_flag_sound : forall (St : Type) (opt : St -> St) (dist : St -> R) f thr k s0,
